@@ -235,6 +235,27 @@ def loci_case(case, ctx):
                 raise Violation("extract-rows-not-explained-by-loci", "%s (in=%d out=%d jitter=%d n_loci=%r): %s" % (tag, in_w, out_w, jit, cap, msg))
             kept = [cands[i] for i in sol]
             results[files] = (outs, kept)
+        if n_sig and case.get("rewrite_signals") and not isinstance(results[True], Exception) \
+                and case.get("min_counts") is None and case.get("max_counts") is None:
+            # the same path now holds other values: a later call must read the file as it is now, not what an earlier call saw
+            sig2 = [{n: v + 1.0 + k for n, v in tr.items()} for k, tr in enumerate(sig)]
+            for k, tr in enumerate(sig2):
+                _write_bw(bws[k], tr, chroms)
+            kept_rows = results[True][1]
+            try:
+                res2 = call(True)
+            except Exception as e:  # noqa: BLE001
+                raise SutRaised(e) from e
+            outs2 = [res2] if isinstance(res2, torch.Tensor) else list(res2)
+            # count filters see shifted sums, so only compare when no count filter is active
+            if case.get("min_counts") is None and case.get("max_counts") is None:
+                require(outs2[1].shape == results[True][0][1].shape, "signals-after-file-rewrite-shape", "")
+                for k2, r in enumerate(kept_rows):
+                    w_out = r["wins"][1]
+                    ws = torch.tensor(numpy.stack([sig2[j][r["chrom"]][w_out[0]:w_out[1]] for j in range(n_sig)]))
+                    require(torch.equal(outs2[1][k2].to(torch.float64), ws.to(torch.float64)), "stale-signal-after-file-rewrite",
+                            lambda: "row %d: got %s want %s" % (k2, outs2[1][k2].flatten().tolist()[:6], ws.flatten().tolist()[:6]))
+            ctx.label("bigwig_rewritten_between_calls")
         a, b = results[True], results[False]
         if not isinstance(a, Exception) and not isinstance(b, Exception):
             require(len(a[0]) == len(b[0]) and all(x.shape == y.shape and torch.equal(x.to(torch.float64), y.to(torch.float64)) for x, y in zip(a[0], b[0])),
@@ -299,7 +320,8 @@ def loci_strategy(draw):
         loci.append(lst)
     case = {"gseed": draw(st.integers(0, 10 ** 6)), "chrom_lengths": lengths, "in_window": in_w, "out_window": out_w, "jitter": jit,
             "loci": loci, "n_signals": n_sig, "n_in_signals": n_in, "line_width": draw(st.sampled_from([60, 50, 13, 1000])),
-            "loci_form": [draw(st.sampled_from(["df", "bed"])) for _ in range(nsets)], "single_not_list": draw(st.booleans())}
+            "loci_form": [draw(st.sampled_from(["df", "bed"])) for _ in range(nsets)], "single_not_list": draw(st.booleans()),
+            "rewrite_signals": draw(st.integers(0, 3)) == 0}
     if nchr > 1 and draw(st.integers(0, 3)) == 0:
         case["chroms"] = sorted(draw(st.sets(st.integers(0, nchr - 1), min_size=1, max_size=nchr)))
     if draw(st.integers(0, 4)) == 0:
@@ -307,7 +329,7 @@ def loci_strategy(draw):
     if n_sig and draw(st.integers(0, 2)) == 0:
         case["min_counts"] = draw(st.integers(0, int(out_w * 1.5)))
     if n_sig and draw(st.integers(0, 3)) == 0:
-        case["max_counts"] = draw(st.integers(int(out_w * 0.8), int(out_w * 3) + 1))
+        case["max_counts"] = draw(st.one_of(st.integers(int(out_w * 0.8), int(out_w * 3) + 1), st.just(0), st.integers(0, 3)))
     return case
 
 
@@ -343,7 +365,9 @@ def meme_case(case, ctx):
         got = sut(read_meme, p, **({"n_motifs": case["n_motifs"]} if case.get("n_motifs") else {}))
     expect = want if not case.get("n_motifs") else want[:case["n_motifs"]]
     require(isinstance(got, dict), "meme-type", str(type(got)))
-    gnames = [k.strip() for k in got.keys()]
+    for k in got.keys():
+        require("\r" not in k and "\n" not in k, "meme-name-contains-line-ending", lambda: "key %r (crlf=%s)" % (k, case["crlf"]))
+    gnames = [k.rstrip(" \t") for k in got.keys()]
     require(gnames == [n for n, _ in expect], "meme-motifs-missing-or-reordered",
             lambda: "file has %s (layout end=%s, blank_after=%s, url=%s), read_meme returned %s" % (
                 [n for n, _ in expect], case["end"], [m.get("blank_after", 1) for m in motifs], [bool(m.get("url")) for m in motifs], gnames))
